@@ -24,6 +24,8 @@ use ndarray::{s, Array1, Array2, ArrayView1, ArrayView2, Axis, ShapeBuilder};
 pub enum V {
     D(String),
     F(f64),
+    /// an `f32` output (f32 instantiations): compared in f32 ulps
+    S(f32),
 }
 
 fn ordered(x: f64) -> i128 {
@@ -34,7 +36,7 @@ fn ordered(x: f64) -> i128 {
         -((b & !(1u64 << 63)) as i128)
     }
 }
-fn fclose(a: f64, b: f64) -> bool {
+pub fn fclose(a: f64, b: f64) -> bool {
     if a.to_bits() == b.to_bits() || a == b || (a.is_nan() && b.is_nan()) {
         return true;
     }
@@ -42,6 +44,19 @@ fn fclose(a: f64, b: f64) -> bool {
         return false;
     }
     (ordered(a) - ordered(b)).abs() <= 4 || (a - b).abs() <= 1e-12
+}
+fn sclose(a: f32, b: f32) -> bool {
+    if a.to_bits() == b.to_bits() || a == b || (a.is_nan() && b.is_nan()) {
+        return true;
+    }
+    if !a.is_finite() || !b.is_finite() {
+        return false;
+    }
+    let o = |x: f32| -> i64 {
+        let b = x.to_bits();
+        if b >> 31 == 0 { b as i64 } else { -((b & !(1u32 << 31)) as i64) }
+    };
+    (o(a) - o(b)).abs() <= 4 || (a - b).abs() <= 1e-4
 }
 /// Some(true) equal, Some(false) differ, None = discrete mismatch (caller consults the margin)
 fn vclose(a: &[V], b: &[V]) -> Option<bool> {
@@ -61,6 +76,11 @@ fn vclose(a: &[V], b: &[V]) -> Option<bool> {
                     return Some(false);
                 }
             }
+            (V::S(p), V::S(q)) => {
+                if !sclose(*p, *q) {
+                    return Some(false);
+                }
+            }
             _ => return Some(false),
         }
     }
@@ -76,6 +96,63 @@ pub fn a1<T>(f: impl Fn(&T) -> V) -> impl Fn(&Array1<T>) -> Vec<Vec<V>> {
 }
 pub fn a2f(a: &Array2<f64>) -> Vec<Vec<V>> {
     a.rows().into_iter().map(|r| r.iter().map(|x| V::F(*x)).collect()).collect()
+}
+pub fn a2s(a: &Array2<f32>) -> Vec<Vec<V>> {
+    a.rows().into_iter().map(|r| r.iter().map(|x| V::S(*x)).collect()).collect()
+}
+
+/// content for a target buffer a caller hands to `predict_inplace`: any junk of the right shape
+pub trait Junk {
+    fn junk(&mut self, salt: usize);
+}
+impl Junk for Array1<f64> {
+    fn junk(&mut self, salt: usize) {
+        for (i, v) in self.iter_mut().enumerate() {
+            *v = if salt == 1 && i % 3 == 0 { f64::NAN } else { -7.25 - 1.5 * i as f64 + 1e3 * salt as f64 };
+        }
+    }
+}
+impl Junk for Array2<f64> {
+    fn junk(&mut self, salt: usize) {
+        for (i, v) in self.iter_mut().enumerate() {
+            *v = if salt == 1 && i % 3 == 0 { f64::NAN } else { -7.25 - 1.5 * i as f64 + 1e3 * salt as f64 };
+        }
+    }
+}
+impl Junk for Array1<f32> {
+    fn junk(&mut self, salt: usize) {
+        for (i, v) in self.iter_mut().enumerate() {
+            *v = if salt == 1 && i % 3 == 0 { f32::NAN } else { -7.25 - 1.5 * i as f32 + 1e3 * salt as f32 };
+        }
+    }
+}
+impl Junk for Array2<f32> {
+    fn junk(&mut self, salt: usize) {
+        for (i, v) in self.iter_mut().enumerate() {
+            *v = if salt == 1 && i % 3 == 0 { f32::NAN } else { -7.25 - 1.5 * i as f32 + 1e3 * salt as f32 };
+        }
+    }
+}
+impl Junk for Array1<usize> {
+    fn junk(&mut self, salt: usize) {
+        for (i, v) in self.iter_mut().enumerate() {
+            *v = 9000 + 10 * salt + i;
+        }
+    }
+}
+impl Junk for Array1<bool> {
+    fn junk(&mut self, salt: usize) {
+        for (i, v) in self.iter_mut().enumerate() {
+            *v = (i + salt) % 2 == 0;
+        }
+    }
+}
+impl Junk for Array1<Pr> {
+    fn junk(&mut self, salt: usize) {
+        for (i, v) in self.iter_mut().enumerate() {
+            *v = Pr::new(if (i + salt) % 2 == 0 { 0.75 } else { 0.0625 });
+        }
+    }
 }
 
 struct Cmp<'a> {
@@ -101,20 +178,23 @@ impl<'a> Cmp<'a> {
 }
 
 /// all checks for one (model, batch)
-pub fn sweep_case<M, T>(em: &mut Em, rng: &mut Rng, kind: &str, fit_id: u64, m: &M, batch: &Array2<f64>, conv: &dyn Fn(&T) -> Vec<Vec<V>>, margin: &dyn Fn(ArrayView1<f64>) -> f64)
+/// (`F` = element type of the records the model was fitted on: the f64 lattice batch is cast exactly)
+pub fn sweep_case<F, M, T>(em: &mut Em, rng: &mut Rng, kind: &str, fit_id: u64, m: &M, batch64: &Array2<f64>, conv: &dyn Fn(&T) -> Vec<Vec<V>>, margin: &dyn Fn(ArrayView1<f64>) -> f64)
 where
-    T: AsTargets,
-    M: PredictInplace<Array2<f64>, T> + for<'v> PredictInplace<ArrayView2<'v, f64>, T>,
+    F: linfa::Float,
+    T: AsTargets + Junk,
+    M: PredictInplace<Array2<F>, T> + for<'v> PredictInplace<ArrayView2<'v, F>, T>,
 {
+    let batch: &Array2<F> = &batch64.mapv(|v| F::cast(v));
     let n = batch.nrows();
     let p = batch.ncols();
     let mut perm: Vec<usize> = (0..n).collect();
     rng.shuffle(&mut perm);
-    let op = format!("#sweep kind={} fit={} rows={}", kind, fit_id, hexrows(batch));
+    let op = format!("#sweep kind={} fit={} rows={}", kind, fit_id, hexrows(batch64));
     let mut skipped = 0usize;
     em.case_valid(op, kind, |ctx| {
         let mut c = Cmp { kind, margin, skipped: 0 };
-        let base_t: T = <M as Predict<&Array2<f64>, T>>::predict(m, batch);
+        let base_t: T = <M as Predict<&Array2<F>, T>>::predict(m, batch);
         let base = conv(&base_t);
         ctx.require(base.len() == n, "one_output_per_row", kind, || format!("{} outputs for {} rows", base.len(), n));
         if base.len() != n {
@@ -123,20 +203,20 @@ where
         // row by row
         for i in 0..n {
             let one = batch.slice(s![i..i + 1, ..]).to_owned();
-            let r = conv(&<M as Predict<&Array2<f64>, T>>::predict(m, &one));
+            let r = conv(&<M as Predict<&Array2<F>, T>>::predict(m, &one));
             ctx.require(r.len() == 1, "one_output_per_row", kind, || format!("{} outputs for a one-row batch", r.len()));
             if r.len() == 1 {
-                c.rows(ctx, "batch_eq_rowwise", batch.row(i), &base[i], &r[0], || format!("row {} of a {}-row batch vs alone", i, n));
+                c.rows(ctx, "batch_eq_rowwise", batch64.row(i), &base[i], &r[0], || format!("row {} of a {}-row batch vs alone", i, n));
             }
         }
         // permuted
         if n > 1 {
             let pb = batch.select(Axis(0), &perm);
-            let r = conv(&<M as Predict<&Array2<f64>, T>>::predict(m, &pb));
+            let r = conv(&<M as Predict<&Array2<F>, T>>::predict(m, &pb));
             ctx.require(r.len() == n, "one_output_per_row", kind, || format!("{} outputs for {} permuted rows", r.len(), n));
             if r.len() == n {
                 for k in 0..n {
-                    c.rows(ctx, "permutation_equivariant", batch.row(perm[k]), &base[perm[k]], &r[k], || format!("row {} moved to position {}", perm[k], k));
+                    c.rows(ctx, "permutation_equivariant", batch64.row(perm[k]), &base[perm[k]], &r[k], || format!("row {} moved to position {}", perm[k], k));
                 }
             }
         }
@@ -144,59 +224,94 @@ where
         for i in 0..n {
             for j in 0..i {
                 if batch.row(i) == batch.row(j) {
-                    c.rows(ctx, "duplicates_agree", batch.row(i), &base[i], &base[j], || format!("equal rows {} and {} of one batch", j, i));
+                    c.rows(ctx, "duplicates_agree", batch64.row(i), &base[i], &base[j], || format!("equal rows {} and {} of one batch", j, i));
                 }
             }
         }
         // non-contiguous layouts of the same logical rows
         {
-            let mut wide = Array2::from_elem((2 * n, p), 1e3);
+            let mut wide = Array2::from_elem((2 * n, p), F::cast(1e3));
             for i in 0..n {
                 wide.row_mut(2 * i).assign(&batch.row(i));
                 if 2 * i + 1 < 2 * n {
-                    wide.row_mut(2 * i + 1).fill(-7.25 - i as f64);
+                    wide.row_mut(2 * i + 1).fill(F::cast(-7.25 - i as f64));
                 }
             }
-            let v: ArrayView2<f64> = wide.slice(s![..;2, ..]);
-            let r = conv(&<M as Predict<&ArrayView2<f64>, T>>::predict(m, &v));
+            let v: ArrayView2<F> = wide.slice(s![..;2, ..]);
+            let r = conv(&<M as Predict<&ArrayView2<F>, T>>::predict(m, &v));
             ctx.require(r.len() == n, "one_output_per_row", kind, || format!("{} outputs for {} strided rows", r.len(), n));
             if r.len() == n {
                 for i in 0..n {
-                    c.rows(ctx, "layout_independent", batch.row(i), &base[i], &r[i], || format!("row {} through slice(s![..;2, ..])", i));
+                    c.rows(ctx, "layout_independent", batch64.row(i), &base[i], &r[i], || format!("row {} through slice(s![..;2, ..])", i));
                 }
             }
             let mut fo = Array2::zeros((n, p).f());
             fo.assign(batch);
-            let v: ArrayView2<f64> = fo.view();
-            let r = conv(&<M as Predict<&ArrayView2<f64>, T>>::predict(m, &v));
+            let v: ArrayView2<F> = fo.view();
+            let r = conv(&<M as Predict<&ArrayView2<F>, T>>::predict(m, &v));
             ctx.require(r.len() == n, "one_output_per_row", kind, || format!("{} outputs for {} column-major rows", r.len(), n));
             if r.len() == n {
                 for i in 0..n {
-                    c.rows(ctx, "layout_independent", batch.row(i), &base[i], &r[i], || format!("row {} through a column-major buffer", i));
+                    c.rows(ctx, "layout_independent", batch64.row(i), &base[i], &r[i], || format!("row {} through a column-major buffer", i));
                 }
             }
         }
         // calling forms: bit-identical, records handed back
         {
             let bits = |x: &Vec<Vec<V>>| -> Vec<Vec<String>> {
-                x.iter().map(|r| r.iter().map(|v| match v { V::D(s) => s.clone(), V::F(f) => hex64c(*f) }).collect()).collect()
+                x.iter().map(|r| r.iter().map(|v| match v { V::D(s) => s.clone(), V::F(f) => hex64c(*f), V::S(f) => if f.is_nan() { "nan".to_string() } else { hex32(*f) } }).collect()).collect()
             };
             let want = bits(&base);
-            let owned = <M as Predict<Array2<f64>, DatasetBase<Array2<f64>, T>>>::predict(m, batch.clone());
+            let owned = <M as Predict<Array2<F>, DatasetBase<Array2<F>, T>>>::predict(m, batch.clone());
             ctx.require(bits(&conv(owned.targets())) == want, "forms_agree", kind, || "predict(records) differs from predict(&records)".to_string());
             ctx.require(owned.records() == batch, "dataset_form_returns_records", kind, || "predict(records) did not hand the records back unchanged".to_string());
-            let ds: DatasetBase<Array2<f64>, Array1<()>> = DatasetBase::from(batch.clone());
-            let t3: T = <M as Predict<&DatasetBase<Array2<f64>, Array1<()>>, T>>::predict(m, &ds);
+            let ds: DatasetBase<Array2<F>, Array1<()>> = DatasetBase::from(batch.clone());
+            let t3: T = <M as Predict<&DatasetBase<Array2<F>, Array1<()>>, T>>::predict(m, &ds);
             ctx.require(bits(&conv(&t3)) == want, "forms_agree", kind, || "predict(&dataset) differs from predict(&records)".to_string());
             ctx.require(ds.records() == batch, "dataset_form_returns_records", kind, || "predict(&dataset) modified the records".to_string());
-            let d4 = <M as Predict<DatasetBase<Array2<f64>, Array1<()>>, DatasetBase<Array2<f64>, T>>>::predict(m, ds);
+            let d4 = <M as Predict<DatasetBase<Array2<F>, Array1<()>>, DatasetBase<Array2<F>, T>>>::predict(m, ds);
             ctx.require(bits(&conv(d4.targets())) == want, "forms_agree", kind, || "predict(dataset) differs from predict(&records)".to_string());
             ctx.require(d4.records() == batch, "dataset_form_returns_records", kind, || "predict(dataset) did not hand the records back unchanged".to_string());
-            let mut t5 = <M as PredictInplace<Array2<f64>, T>>::default_target(m, batch);
-            <M as PredictInplace<Array2<f64>, T>>::predict_inplace(m, batch, &mut t5);
+            // dataset forms on a dataset that already carries targets, weights and feature names: the
+            // prediction must not look at any of them, the records come back unchanged
+            {
+                let tg: Array1<usize> = (0..n).rev().collect();
+                let wt: Array1<f32> = (0..n).map(|i| if i % 2 == 0 { 0.0 } else { 2.5 }).collect();
+                let names: Vec<String> = (0..p).map(|j| format!("f{}", j)).collect();
+                let full = DatasetBase::new(batch.clone(), tg).with_weights(wt).with_feature_names(names);
+                let t: T = <M as Predict<&DatasetBase<Array2<F>, Array1<usize>>, T>>::predict(m, &full);
+                ctx.require(bits(&conv(&t)) == want, "forms_agree", kind, || "predict(&dataset with targets, zero weights, names) differs from predict(&records)".to_string());
+                ctx.require(full.records() == batch, "dataset_form_returns_records", kind, || "predict(&dataset with targets/weights) modified the records".to_string());
+                let d = <M as Predict<DatasetBase<Array2<F>, Array1<usize>>, DatasetBase<Array2<F>, T>>>::predict(m, full);
+                ctx.require(bits(&conv(d.targets())) == want, "forms_agree", kind, || "predict(dataset with targets, zero weights, names) differs from predict(&records)".to_string());
+                ctx.require(d.records() == batch, "dataset_form_returns_records", kind, || "predict(dataset with targets/weights) did not hand the records back unchanged".to_string());
+            }
+            let mut t5 = <M as PredictInplace<Array2<F>, T>>::default_target(m, batch);
+            <M as PredictInplace<Array2<F>, T>>::predict_inplace(m, batch, &mut t5);
             ctx.require(bits(&conv(&t5)) == want, "forms_agree", kind, || "predict_inplace differs from predict(&records)".to_string());
+            // in place into a buffer supplied by the caller: pre-filled with junk (finite; with NaNs) ...
+            for salt in 0..2 {
+                let mut t6 = <M as PredictInplace<Array2<F>, T>>::default_target(m, batch);
+                t6.junk(salt);
+                <M as PredictInplace<Array2<F>, T>>::predict_inplace(m, batch, &mut t6);
+                ctx.require(bits(&conv(&t6)) == want, "inplace_into_supplied_buffer", kind, || format!("predict_inplace into a pre-filled buffer (junk {}) differs from predict(&records): {:?} vs {:?}", salt, conv(&t6), base));
+            }
+            // ... and reused from a previous batch of the same size (the rows in reverse order)
+            if n > 0 {
+                let idx: Vec<usize> = (0..n).rev().collect();
+                let other = batch.select(Axis(0), &idx);
+                let mut t7 = <M as PredictInplace<Array2<F>, T>>::default_target(m, &other);
+                <M as PredictInplace<Array2<F>, T>>::predict_inplace(m, &other, &mut t7);
+                <M as PredictInplace<Array2<F>, T>>::predict_inplace(m, batch, &mut t7);
+                ctx.require(bits(&conv(&t7)) == want, "inplace_into_supplied_buffer", kind, || format!("predict_inplace into the buffer of a previous batch differs from predict(&records): {:?} vs {:?}", conv(&t7), base));
+                // and on the view form
+                let mut t8 = <M as PredictInplace<ArrayView2<F>, T>>::default_target(m, &batch.view());
+                t8.junk(0);
+                <M as PredictInplace<ArrayView2<F>, T>>::predict_inplace(m, &batch.view(), &mut t8);
+                ctx.require(bits(&conv(&t8)) == want, "inplace_into_supplied_buffer", kind, || "predict_inplace(&view) into a pre-filled buffer differs from predict(&records)".to_string());
+            }
             // a second call on the same input: the model carries no state across calls
-            let again: T = <M as Predict<&Array2<f64>, T>>::predict(m, batch);
+            let again: T = <M as Predict<&Array2<F>, T>>::predict(m, batch);
             ctx.require(bits(&conv(&again)) == want, "repeatable", kind, || "a second predict(&records) on the same batch differs".to_string());
         }
         skipped = c.skipped;
@@ -207,17 +322,33 @@ where
     }
 }
 
-fn sweep_model<M, T>(em: &mut Em, rng: &mut Rng, kind: &str, m: &M, pool: &Array2<f64>, conv: &dyn Fn(&T) -> Vec<Vec<V>>, margin: &dyn Fn(ArrayView1<f64>) -> f64)
+fn sweep_model<F, M, T>(em: &mut Em, rng: &mut Rng, kind: &str, m: &M, pool: &Array2<f64>, conv: &dyn Fn(&T) -> Vec<Vec<V>>, margin: &dyn Fn(ArrayView1<f64>) -> f64)
 where
-    T: AsTargets,
-    M: PredictInplace<Array2<f64>, T> + for<'v> PredictInplace<ArrayView2<'v, f64>, T>,
+    F: linfa::Float,
+    T: AsTargets + Junk,
+    M: PredictInplace<Array2<F>, T> + for<'v> PredictInplace<ArrayView2<'v, F>, T>,
 {
     let nb = if em.thorough() { 6 } else { 3 };
     let fit_id = rng.next() % 1_000_000;
     em.count(&format!("fitted:{}", kind));
     for _ in 0..nb {
         let batch = batch_from(rng, pool, em);
-        sweep_case(em, rng, kind, fit_id, m, &batch, conv, margin);
+        sweep_case::<F, M, T>(em, rng, kind, fit_id, m, &batch, conv, margin);
+    }
+    // a batch well beyond any small-batch fast path / chunk size: 33..=96 rows, midpoints of pool rows
+    // (stay inside the pool's domain, exact on the quarter lattice)
+    if em.thorough() || rng.chance(1, 2) {
+        let nrows = 33 + rng.below(64);
+        let np = pool.nrows();
+        let mut big = Array2::zeros((nrows, pool.ncols()));
+        for i in 0..nrows {
+            let (a, b) = (rng.below(np), rng.below(np));
+            for j in 0..pool.ncols() {
+                big[(i, j)] = (pool[(a, j)] + pool[(b, j)]) / 2.0;
+            }
+        }
+        em.count("batch:large");
+        sweep_case::<F, M, T>(em, rng, kind, fit_id, m, &big, conv, margin);
     }
 }
 
@@ -305,9 +436,25 @@ fn one_round(em: &mut Em, rng: &mut Rng) {
                     let d: Vec<f64> = cents.rows().into_iter().map(|c| -c.iter().zip(r.iter()).map(|(a, b)| (a - b) * (a - b)).sum::<f64>()).collect();
                     top2_gap(&d)
                 };
-                sweep_model(em, rng, "kmeans", &m, &pool, &ustr, &margin)
+                sweep_model::<f64, _, _>(em, rng, "kmeans", &m, &pool, &ustr, &margin)
             }
             Err(_) => fail_fit(em, "kmeans"),
+        }
+    }
+    // k-means with a non-L2 distance (the generic `Distance` path of `closest_centroid`)
+    {
+        use linfa_clustering::KMeans;
+        use linfa_nn::distance::L1Dist;
+        match KMeans::params_with(k, rand_xoshiro::Xoshiro256Plus::seed_from_u64(seed), L1Dist).max_n_iterations(15).n_runs(1).fit(&Dataset::from(x.clone())) {
+            Ok(m) => {
+                let cents = m.centroids().clone();
+                let margin = move |r: ArrayView1<f64>| {
+                    let d: Vec<f64> = cents.rows().into_iter().map(|c| -c.iter().zip(r.iter()).map(|(a, b)| (a - b).abs()).sum::<f64>()).collect();
+                    top2_gap(&d)
+                };
+                sweep_model::<f64, _, _>(em, rng, "kmeans_l1", &m, &pool, &ustr, &margin)
+            }
+            Err(_) => fail_fit(em, "kmeans_l1"),
         }
     }
     trace("Gaussian mixture");
@@ -326,10 +473,17 @@ fn one_round(em: &mut Em, rng: &mut Rng) {
                         top2_gap(&v)
                     }
                 };
-                // far from every component the naive log-sum-exp underflows (C10's subject): keep the
-                // queries near the data so that the responsibilities are finite
-                let near = pool.mapv(|v| v / 2.0);
-                sweep_model(em, rng, "gmm", &m, &near, &ustr, &margin)
+                // queries near the data and far from every component in ONE pool, so that batches mix
+                // them: a log-sum-exp shift shared by the batch would let a near row decide a far
+                // row's label (the per-row shift keeps far rows finite since the C10 repair)
+                let mut mixed = Array2::zeros((2 * pool.nrows(), p));
+                for i in 0..pool.nrows() {
+                    for j in 0..p {
+                        mixed[(2 * i, j)] = pool[(i, j)] / 2.0;
+                        mixed[(2 * i + 1, j)] = pool[(i, j)] * 16.0 + 40.0;
+                    }
+                }
+                sweep_model::<f64, _, _>(em, rng, "gmm", &m, &mixed, &ustr, &margin)
             }
             Err(_) => fail_fit(em, "gmm"),
         }
@@ -337,7 +491,7 @@ fn one_round(em: &mut Em, rng: &mut Rng) {
     trace("OLS");
     // OLS
     match linfa_linear::LinearRegression::new().with_intercept(rng.coin()).fit(&Dataset::new(x.clone(), yreg.clone())) {
-        Ok(m) => sweep_model(em, rng, "ols", &m, &pool, &fstr, &NOMARGIN),
+        Ok(m) => sweep_model::<f64, _, _>(em, rng, "ols", &m, &pool, &fstr, &NOMARGIN),
         Err(_) => fail_fit(em, "ols"),
     }
     trace("Tweedie GLM");
@@ -346,11 +500,21 @@ fn one_round(em: &mut Em, rng: &mut Rng) {
         let ypos = yreg.mapv(|v| (v / 16.0).exp().min(8.0) + 0.125);
         let xs = x.mapv(|v| v / 8.0);
         let power = if rng.coin() { 1.0 } else { 0.0 };
-        let fitted = with_timeout(3000, move || linfa_linear::TweedieRegressor::params().power(power).alpha(0.125).max_iter(30).fit(&Dataset::new(xs, ypos)).ok());
+        // every third fit: explicit logit link (targets in (0,1)) — `link.inverse` is then the sigmoid
+        let logit = rng.chance(1, 3);
+        let gkind = if logit { "glm_logit" } else { "glm" };
+        let fitted = with_timeout(3000, move || {
+            if logit {
+                let y01 = ypos.mapv(|v| v / (1.0 + v));
+                linfa_linear::TweedieRegressor::params().power(0.0).link(linfa_linear::Link::Logit).alpha(0.125).max_iter(30).fit(&Dataset::new(xs, y01)).ok()
+            } else {
+                linfa_linear::TweedieRegressor::params().power(power).alpha(0.125).max_iter(30).fit(&Dataset::new(xs, ypos)).ok()
+            }
+        });
         match fitted {
-            Some(Some(m)) => sweep_model(em, rng, "glm", &m, &pool.mapv(|v| v / 8.0), &fstr, &NOMARGIN),
-            Some(None) => fail_fit(em, "glm"),
-            None => em.count("fit_timeout:glm"),
+            Some(Some(m)) => sweep_model::<f64, _, _>(em, rng, gkind, &m, &pool.mapv(|v| v / 8.0), &fstr, &NOMARGIN),
+            Some(None) => fail_fit(em, gkind),
+            None => em.count(&format!("fit_timeout:{}", gkind)),
         }
     }
     trace("isotonic");
@@ -358,58 +522,65 @@ fn one_round(em: &mut Em, rng: &mut Rng) {
     {
         let x1 = x.slice(s![.., 0..1]).to_owned();
         match linfa_linear::IsotonicRegression::new().fit(&Dataset::new(x1, yreg.clone())) {
-            Ok(m) => sweep_model(em, rng, "isotonic", &m, &pool.slice(s![.., 0..1]).to_owned(), &fstr, &NOMARGIN),
+            Ok(m) => sweep_model::<f64, _, _>(em, rng, "isotonic", &m, &pool.slice(s![.., 0..1]).to_owned(), &fstr, &NOMARGIN),
             Err(_) => fail_fit(em, "isotonic"),
         }
     }
     trace("elastic net");
     // elastic net, single and multi task
-    match linfa_elasticnet::ElasticNet::params().penalty(0.125).l1_ratio(0.5).fit(&Dataset::new(x.clone(), yreg.clone())) {
-        Ok(m) => sweep_model(em, rng, "elasticnet", &m, &pool, &fstr, &NOMARGIN),
+    match linfa_elasticnet::ElasticNet::params().penalty(0.125).l1_ratio(0.5).with_intercept(rng.coin()).fit(&Dataset::new(x.clone(), yreg.clone())) {
+        Ok(m) => sweep_model::<f64, _, _>(em, rng, "elasticnet", &m, &pool, &fstr, &NOMARGIN),
         Err(_) => fail_fit(em, "elasticnet"),
     }
     {
         let t = 2 + rng.below(2);
         let y2 = Array2::from_shape_fn((n, t), |(i, c)| yreg[i] * (c as f64 + 1.0) + x[(i, 0)]);
         match linfa_elasticnet::MultiTaskElasticNet::params().penalty(0.125).l1_ratio(0.5).fit(&Dataset::new(x.clone(), y2.clone())) {
-            Ok(m) => sweep_model(em, rng, "multitask_elasticnet", &m, &pool, &a2f, &NOMARGIN),
+            Ok(m) => sweep_model::<f64, _, _>(em, rng, "multitask_elasticnet", &m, &pool, &a2f, &NOMARGIN),
             Err(_) => fail_fit(em, "multitask_elasticnet"),
         }
         // PLS
         if p >= 2 {
-            match linfa_pls::PlsRegression::params(1).fit(&Dataset::new(x.clone(), y2.clone())) {
-                Ok(m) => sweep_model(em, rng, "pls_regression", &m, &pool, &a2f, &NOMARGIN),
+            let comps = 1 + rng.below(2);
+            let scale = rng.coin();
+            match linfa_pls::PlsRegression::params(comps).scale(scale).fit(&Dataset::new(x.clone(), y2.clone())) {
+                Ok(m) => sweep_model::<f64, _, _>(em, rng, "pls_regression", &m, &pool, &a2f, &NOMARGIN),
                 Err(_) => fail_fit(em, "pls_regression"),
             }
-            match linfa_pls::PlsCanonical::params(1).fit(&Dataset::new(x.clone(), y2.clone())) {
-                Ok(m) => sweep_model(em, rng, "pls_canonical", &m, &pool, &a2f, &NOMARGIN),
+            match linfa_pls::PlsCanonical::params(comps).scale(scale).fit(&Dataset::new(x.clone(), y2.clone())) {
+                Ok(m) => sweep_model::<f64, _, _>(em, rng, "pls_canonical", &m, &pool, &a2f, &NOMARGIN),
                 Err(_) => fail_fit(em, "pls_canonical"),
+            }
+            match linfa_pls::PlsCca::params(comps).scale(scale).fit(&Dataset::new(x.clone(), y2.clone())) {
+                Ok(m) => sweep_model::<f64, _, _>(em, rng, "pls_cca", &m, &pool, &a2f, &NOMARGIN),
+                Err(_) => fail_fit(em, "pls_cca"),
             }
         }
     }
     trace("PCA");
     // PCA
     match linfa_reduction::Pca::params(1 + rng.below(p)).whiten(rng.coin()).fit(&Dataset::from(x.clone())) {
-        Ok(m) => sweep_model(em, rng, "pca", &m, &pool, &a2f, &NOMARGIN),
+        Ok(m) => sweep_model::<f64, _, _>(em, rng, "pca", &m, &pool, &a2f, &NOMARGIN),
         Err(_) => fail_fit(em, "pca"),
     }
     trace("logistic");
     // logistic, binary and multinomial
     let (xc, yc) = (x.clone(), ybool.clone());
-    match with_timeout(3000, move || linfa_logistic::LogisticRegression::default().max_iterations(40).fit(&Dataset::new(xc, yc)).map_err(|_| ())).unwrap_or(Err(())) {
+    let icpt = rng.coin();
+    match with_timeout(3000, move || linfa_logistic::LogisticRegression::default().with_intercept(icpt).max_iterations(40).fit(&Dataset::new(xc, yc)).map_err(|_| ())).unwrap_or(Err(())) {
         Ok(m) => {
             let mm = m.clone();
             let margin = move |r: ArrayView1<f64>| (mm.predict_probabilities(&row2(r))[0] - 0.5).abs();
-            sweep_model(em, rng, "logistic_binary", &m, &pool, &bstr, &margin)
+            sweep_model::<f64, _, _>(em, rng, "logistic_binary", &m, &pool, &bstr, &margin)
         }
         Err(_) => fail_fit(em, "logistic_binary"),
     }
     let (xc, yc) = (x.clone(), y.clone());
-    match with_timeout(3000, move || linfa_logistic::MultiLogisticRegression::default().max_iterations(40).fit(&Dataset::new(xc, yc)).map_err(|_| ())).unwrap_or(Err(())) {
+    match with_timeout(3000, move || linfa_logistic::MultiLogisticRegression::default().with_intercept(icpt).max_iterations(40).fit(&Dataset::new(xc, yc)).map_err(|_| ())).unwrap_or(Err(())) {
         Ok(m) => {
             let mm = m.clone();
             let margin = move |r: ArrayView1<f64>| top2_gap(&mm.predict_probabilities(&row2(r)).row(0).to_vec());
-            sweep_model(em, rng, "logistic_multinomial", &m, &pool, &ustr, &margin)
+            sweep_model::<f64, _, _>(em, rng, "logistic_multinomial", &m, &pool, &ustr, &margin)
         }
         Err(_) => fail_fit(em, "logistic_multinomial"),
     }
@@ -417,35 +588,51 @@ fn one_round(em: &mut Em, rng: &mut Rng) {
     // SVM: classification (linear / gaussian), probability, regression, one-class
     {
         use linfa_svm::Svm;
-        let gauss = rng.coin();
-        let params = Svm::<f64, bool>::params().pos_neg_weights(1.0, 1.0);
-        let params = if gauss { params.gaussian_kernel(20.0) } else { params.linear_kernel() };
+        let kern = rng.below(3); // 0 linear (explicit hyperplane path), 1 Gaussian, 2 polynomial (kernel expansion path)
+        let gauss = kern == 1;
+        let kname = ["linear", "gaussian", "poly"][kern];
+        macro_rules! with_kernel {
+            ($p:expr) => {
+                match kern {
+                    0 => $p.linear_kernel(),
+                    1 => $p.gaussian_kernel(20.0),
+                    _ => $p.polynomial_kernel(1.0, 2.0),
+                }
+            };
+        }
+        let nu = rng.chance(1, 3);
+        let params = Svm::<f64, bool>::params();
+        let params = if nu { params.nu_weight(0.5) } else { params.pos_neg_weights(1.0, 1.0) };
+        let params = with_kernel!(params);
         match params.fit(&Dataset::new(x.clone(), ybool.clone())) {
             Ok(m) => {
                 let mm = m.clone();
                 let margin = move |r: ArrayView1<f64>| (mm.weighted_sum(&r) - mm.rho).abs();
-                sweep_model(em, rng, if gauss { "svm_class_gaussian" } else { "svm_class_linear" }, &m, &pool, &bstr, &margin)
+                sweep_model::<f64, _, _>(em, rng, &format!("svm_class_{}{}", kname, if nu { "_nu" } else { "" }), &m, &pool, &bstr, &margin)
             }
-            Err(_) => fail_fit(em, "svm_class"),
+            Err(_) => fail_fit(em, &format!("svm_class_{}{}", kname, if nu { "_nu" } else { "" })),
         }
+        let _ = gauss;
         let params = Svm::<f64, Pr>::params().pos_neg_weights(1.0, 1.0);
-        let params = if gauss { params.gaussian_kernel(20.0) } else { params.linear_kernel() };
+        let params = with_kernel!(params);
         match params.fit(&Dataset::new(x.clone(), ybool.clone())) {
-            Ok(m) => sweep_model(em, rng, "svm_probability", &m, &pool, &prstr, &NOMARGIN),
+            Ok(m) => sweep_model::<f64, _, _>(em, rng, "svm_probability", &m, &pool, &prstr, &NOMARGIN),
             Err(_) => fail_fit(em, "svm_probability"),
         }
-        let params = Svm::<f64, f64>::params().c_svr(4.0, Some(0.125));
-        let params = if gauss { params.gaussian_kernel(20.0) } else { params.linear_kernel() };
+        let params = Svm::<f64, f64>::params();
+        let params = if nu { params.nu_svr(0.5, Some(4.0)) } else { params.c_svr(4.0, Some(0.125)) };
+        let params = with_kernel!(params);
+        let rkind = if nu { "svm_regression_nu" } else { "svm_regression" };
         match params.fit(&Dataset::new(x.clone(), yreg.clone())) {
-            Ok(m) => sweep_model(em, rng, "svm_regression", &m, &pool, &fstr, &NOMARGIN),
-            Err(_) => fail_fit(em, "svm_regression"),
+            Ok(m) => sweep_model::<f64, _, _>(em, rng, rkind, &m, &pool, &fstr, &NOMARGIN),
+            Err(_) => fail_fit(em, rkind),
         }
         match Svm::<f64, Pr>::params().nu_weight(0.5).gaussian_kernel(30.0).fit(&Dataset::from(x.clone())) {
             Ok(m) => {
                 let m: Svm<f64, bool> = m;
                 let mm = m.clone();
                 let margin = move |r: ArrayView1<f64>| (mm.weighted_sum(&r) - mm.rho).abs();
-                sweep_model(em, rng, "svm_one_class", &m, &pool, &bstr, &margin)
+                sweep_model::<f64, _, _>(em, rng, "svm_one_class", &m, &pool, &bstr, &margin)
             }
             Err(_) => fail_fit(em, "svm_one_class"),
         }
@@ -453,7 +640,7 @@ fn one_round(em: &mut Em, rng: &mut Rng) {
     trace("decision tree");
     // decision tree: raw comparisons only, never a tie
     match linfa_trees::DecisionTree::params().max_depth(Some(1 + rng.below(4))).fit(&Dataset::new(x.clone(), y.clone())) {
-        Ok(m) => sweep_model(em, rng, "decision_tree", &m, &pool, &ustr, &NOMARGIN),
+        Ok(m) => sweep_model::<f64, _, _>(em, rng, "decision_tree", &m, &pool, &ustr, &NOMARGIN),
         Err(_) => fail_fit(em, "decision_tree"),
     }
     trace("naive Bayes");
@@ -474,7 +661,7 @@ fn one_round(em: &mut Em, rng: &mut Rng) {
                     let g = top2_gap(&jll);
                     if g.is_finite() { g } else { 0.0 }
                 };
-                sweep_model(em, rng, "gaussian_nb", &m, &pool, &ustr, &margin)
+                sweep_model::<f64, _, _>(em, rng, "gaussian_nb", &m, &pool, &ustr, &margin)
             }
             Err(_) => fail_fit(em, "gaussian_nb"),
         }
@@ -487,7 +674,7 @@ fn one_round(em: &mut Em, rng: &mut Rng) {
                     let g = top2_gap(&jll);
                     if g.is_finite() { g } else { 0.0 }
                 };
-                sweep_model(em, rng, "multinomial_nb", &m, &pool.mapv(|v| v.abs()), &ustr, &margin)
+                sweep_model::<f64, _, _>(em, rng, "multinomial_nb", &m, &pool.mapv(|v| v.abs()), &ustr, &margin)
             }
             Err(_) => fail_fit(em, "multinomial_nb"),
         }
@@ -510,7 +697,7 @@ fn one_round(em: &mut Em, rng: &mut Rng) {
             }
         }
         match (ok, model) {
-            (true, Some(m)) => sweep_model(em, rng, "ftrl", &m, &pool, &prstr, &NOMARGIN),
+            (true, Some(m)) => sweep_model::<f64, _, _>(em, rng, "ftrl", &m, &pool, &prstr, &NOMARGIN),
             _ => fail_fit(em, "ftrl"),
         }
     }
@@ -530,6 +717,148 @@ fn one_round(em: &mut Em, rng: &mut Rng) {
             wrapper_mt(em, rng, &arr, &c1, &c2, &pool);
         } else {
             fail_fit(em, "multi_target");
+        }
+    }
+}
+
+/// the same logical rows in three other memory layouts: an OWNED array that is a strided slice of a
+/// wider allocation (`slice_move(s![..;2, ..])`), an owned column-major array, and (for `views`) the
+/// strided view itself
+pub fn layouts(batch: &Array2<f64>) -> (Array2<f64>, Array2<f64>) {
+    let (n, p) = batch.dim();
+    let mut wide = Array2::from_elem((2 * n, p), 1e3);
+    for i in 0..n {
+        wide.row_mut(2 * i).assign(&batch.row(i));
+        wide.row_mut(2 * i + 1).fill(-7.25 - i as f64);
+    }
+    let strided = wide.slice_move(s![..;2, ..]);
+    let mut fo = Array2::zeros((n, p).f());
+    fo.assign(batch);
+    (strided, fo)
+}
+
+/// f32 instantiations of the generic predictors (separate monomorphisations; `Svm<f32, f32>` is a
+/// separate macro instantiation, `platt_predict::<f32>` skips the f64 -> f32 cast).  The discrete
+/// kinds skip a mismatch only when the margin recomputed in f64 is below 1e-5 (f32 rounding).
+fn one_round_f32(em: &mut Em, rng: &mut Rng) {
+    use rand::SeedableRng;
+    let p = 1 + rng.below(4);
+    let p = if rng.chance(1, 5) { 9 + rng.below(4) } else { p };
+    let n = 12 + rng.below(12);
+    let k = 2 + rng.below(2);
+    let (x64, y) = blobs(rng, n, p, k);
+    let x = x64.mapv(|v| v as f32);
+    let ybool = y.mapv(|c| c == 0);
+    let yreg = Array1::from_shape_fn(n, |i| ((0..p).map(|j| x64[(i, j)] * ((j % 3) as f64 - 1.0)).sum::<f64>() + 0.25 * rng.range(-4, 4) as f64) as f32);
+    let pool = {
+        let mut q = lattice(rng, 7, p, 9, true);
+        for j in 0..p {
+            q[(0, j)] = x64[(0, j)];
+        }
+        q
+    };
+    let seed = rng.next();
+    let sstr = a1(|x: &f32| V::S(*x));
+    let ustr = a1(|x: &usize| V::D(x.to_string()));
+    let bstr = a1(|x: &bool| V::D(x.to_string()));
+    let prstr = a1(|x: &Pr| V::S(**x));
+    let row32 = |r: ArrayView1<f64>| r.mapv(|v| v as f32);
+    {
+        use linfa_clustering::KMeans;
+        match KMeans::params_with_rng(k, rand_xoshiro::Xoshiro256Plus::seed_from_u64(seed)).max_n_iterations(15).n_runs(1).fit(&Dataset::from(x.clone())) {
+            Ok(m) => {
+                let cents = m.centroids().mapv(|v| v as f64);
+                let margin = move |r: ArrayView1<f64>| {
+                    let d: Vec<f64> = cents.rows().into_iter().map(|c| -c.iter().zip(r.iter()).map(|(a, b)| (a - b) * (a - b)).sum::<f64>()).collect();
+                    top2_gap(&d) * 1e-4
+                };
+                sweep_model::<f32, _, _>(em, rng, "f32:kmeans", &m, &pool, &ustr, &margin)
+            }
+            Err(_) => fail_fit(em, "f32:kmeans"),
+        }
+    }
+    match linfa_linear::LinearRegression::new().with_intercept(rng.coin()).fit(&Dataset::new(x.clone(), yreg.clone())) {
+        Ok(m) => sweep_model::<f32, _, _>(em, rng, "f32:ols", &m, &pool, &sstr, &NOMARGIN),
+        Err(_) => fail_fit(em, "f32:ols"),
+    }
+    {
+        let x1 = x.slice(s![.., 0..1]).to_owned();
+        match linfa_linear::IsotonicRegression::new().fit(&Dataset::new(x1, yreg.clone())) {
+            Ok(m) => sweep_model::<f32, _, _>(em, rng, "f32:isotonic", &m, &pool.slice(s![.., 0..1]).to_owned(), &sstr, &NOMARGIN),
+            Err(_) => fail_fit(em, "f32:isotonic"),
+        }
+    }
+    match linfa_elasticnet::ElasticNet::<f32>::params().penalty(0.125).l1_ratio(0.5).fit(&Dataset::new(x.clone(), yreg.clone())) {
+        Ok(m) => sweep_model::<f32, _, _>(em, rng, "f32:elasticnet", &m, &pool, &sstr, &NOMARGIN),
+        Err(_) => fail_fit(em, "f32:elasticnet"),
+    }
+    {
+        use linfa_svm::Svm;
+        let gauss = rng.coin();
+        let params = Svm::<f32, bool>::params().pos_neg_weights(1.0, 1.0);
+        let params = if gauss { params.gaussian_kernel(20.0) } else { params.linear_kernel() };
+        match params.fit(&Dataset::new(x.clone(), ybool.clone())) {
+            Ok(m) => {
+                let mm = m.clone();
+                let margin = move |r: ArrayView1<f64>| ((mm.weighted_sum(&row32(r)) - mm.rho).abs() as f64) * 1e-4;
+                sweep_model::<f32, _, _>(em, rng, "f32:svm_class", &m, &pool, &bstr, &margin)
+            }
+            Err(_) => fail_fit(em, "f32:svm_class"),
+        }
+        let params = Svm::<f32, Pr>::params().pos_neg_weights(1.0, 1.0);
+        let params = if gauss { params.gaussian_kernel(20.0) } else { params.linear_kernel() };
+        match params.fit(&Dataset::new(x.clone(), ybool.clone())) {
+            Ok(m) => sweep_model::<f32, _, _>(em, rng, "f32:svm_probability", &m, &pool, &prstr, &NOMARGIN),
+            Err(_) => fail_fit(em, "f32:svm_probability"),
+        }
+        let params = Svm::<f32, f32>::params().c_svr(4.0, Some(0.125));
+        let params = if gauss { params.gaussian_kernel(20.0) } else { params.linear_kernel() };
+        match params.fit(&Dataset::new(x.clone(), yreg.clone())) {
+            Ok(m) => sweep_model::<f32, _, _>(em, rng, "f32:svm_regression", &m, &pool, &sstr, &NOMARGIN),
+            Err(_) => fail_fit(em, "f32:svm_regression"),
+        }
+    }
+    match linfa_trees::DecisionTree::params().max_depth(Some(1 + rng.below(4))).fit(&Dataset::new(x.clone(), y.clone())) {
+        Ok(m) => sweep_model::<f32, _, _>(em, rng, "f32:decision_tree", &m, &pool, &ustr, &NOMARGIN),
+        Err(_) => fail_fit(em, "f32:decision_tree"),
+    }
+    match linfa_bayes::GaussianNb::params().fit(&Dataset::new(x.clone(), y.clone())) {
+        Ok(m) => {
+            let info = nb_info(&serde_json::to_value(&m).unwrap(), "theta", "sigma");
+            let margin = move |r: ArrayView1<f64>| {
+                let jll: Vec<f64> = info
+                    .iter()
+                    .map(|(prior, th, sg)| {
+                        let a: f64 = sg.iter().map(|s| (2.0 * std::f64::consts::PI * s).ln()).sum::<f64>() * -0.5;
+                        let b: f64 = r.iter().zip(th.iter().zip(sg.iter())).map(|(x, (t, s))| (x - t) * (x - t) / s).sum::<f64>() * 0.5;
+                        a - b + prior.ln()
+                    })
+                    .collect();
+                let g = top2_gap(&jll);
+                if g.is_finite() { g * 1e-4 } else { 0.0 }
+            };
+            sweep_model::<f32, _, _>(em, rng, "f32:gaussian_nb", &m, &pool, &ustr, &margin)
+        }
+        Err(_) => fail_fit(em, "f32:gaussian_nb"),
+    }
+    {
+        use linfa_ftrl::Ftrl;
+        let params = Ftrl::<f32>::params_with_rng(rand_xoshiro::Xoshiro256Plus::seed_from_u64(seed)).alpha(0.5).l1_ratio(0.01).l2_ratio(0.01);
+        let ds = Dataset::new(x.clone(), ybool.clone());
+        let mut model: Option<Ftrl<f32>> = None;
+        let mut ok = true;
+        for _ in 0..3 {
+            match params.fit_with(model.take(), &ds) {
+                Ok(m) => model = Some(m),
+                Err(_) => {
+                    ok = false;
+                    break;
+                }
+            }
+        }
+        match (ok, model) {
+            (true, Some(m)) => sweep_model::<f32, _, _>(em, rng, "f32:ftrl", &m, &pool, &prstr, &NOMARGIN),
+            _ => fail_fit(em, "f32:ftrl"),
         }
     }
 }
@@ -570,6 +899,28 @@ fn wrapper_mt(em: &mut Em, rng: &mut Rng, w: &MultiTargetModel<Array2<f64>, f64>
             let ds = w.predict(batch.clone());
             ctx.require(ds.records() == &batch, "dataset_form_returns_records", kind, || "records changed".to_string());
             ctx.require(ds.targets() == &out, "forms_agree", kind, || "predict(records) differs from predict(&records)".to_string());
+            // memory layouts: owned strided, owned column-major, strided view, column-major view
+            {
+                let (strided, fo) = layouts(&batch);
+                // a wrapper instance serves one record type: the view-typed one is built here (its type
+                // carries the lifetime of the views it will be given)
+                let wv: MultiTargetModel<ArrayView2<f64>, f64> = vec![m1.clone(), m2.clone()].into_iter().collect();
+                let same = |r: &Array2<f64>| r.dim() == out.dim() && r.iter().zip(out.iter()).all(|(a, b)| fclose(*a, *b));
+                let r: Array2<f64> = w.predict(&strided);
+                ctx.require(same(&r), "layout_independent", kind, || format!("owned strided batch: {:?} vs {:?}", r, out));
+                let r: Array2<f64> = w.predict(&fo);
+                ctx.require(same(&r), "layout_independent", kind, || format!("owned column-major batch: {:?} vs {:?}", r, out));
+                let r: Array2<f64> = wv.predict(&strided.view());
+                ctx.require(same(&r), "layout_independent", kind, || format!("strided view: {:?} vs {:?}", r, out));
+                let r: Array2<f64> = wv.predict(&fo.view());
+                ctx.require(same(&r), "layout_independent", kind, || format!("column-major view: {:?} vs {:?}", r, out));
+            }
+            for salt in 0..2 {
+                let mut y = w.default_target(&batch);
+                y.junk(salt);
+                w.predict_inplace(&batch, &mut y);
+                ctx.require(y.dim() == out.dim() && y.iter().zip(out.iter()).all(|(a, b)| a.to_bits() == b.to_bits()), "inplace_into_supplied_buffer", kind, || format!("pre-filled buffer gives {:?}, predict(&records) {:?}", y, out));
+            }
             String::new()
         });
     }
@@ -609,15 +960,35 @@ fn wrappers_svm(em: &mut Em, rng: &mut Rng) {
             if out.len() != n {
                 return String::new();
             }
+            for salt in 0..2 {
+                let mut y = w.default_target(&batch);
+                y.junk(salt);
+                w.predict_inplace(&batch, &mut y);
+                ctx.require(y == out, "inplace_into_supplied_buffer", kind, || format!("pre-filled buffer gives {:?}, predict(&records) {:?}", y, out));
+            }
             let probs: Vec<Array1<Pr>> = copies.iter().map(|(_, m)| m.predict(&batch)).collect();
-            for i in 0..n {
-                let mut best = 0;
-                for k in 1..copies.len() {
-                    if *probs[k][i] > *probs[best][i] {
-                        best = k;
+            {
+                let (strided, fo) = layouts(&batch);
+                let wv: MultiClassModel<ArrayView2<f64>, usize> = copies.clone().into_iter().collect();
+                let outs: Vec<(&str, Array1<usize>)> = vec![("owned strided", w.predict(&strided)), ("owned column-major", w.predict(&fo)), ("strided view", wv.predict(&strided.view())), ("column-major view", wv.predict(&fo.view()))];
+                for (what, r) in outs.iter() {
+                    ctx.require(r.len() == n, "one_output_per_row", kind, || format!("{} outputs for {} rows ({})", r.len(), n, what));
+                    for i in 0..n.min(r.len()) {
+                        if r[i] != out[i] {
+                            let v: Vec<f64> = probs.iter().map(|p| *p[i] as f64).collect();
+                            if top2_gap(&v) < 1e-6 {
+                                skipped += 1;
+                            } else {
+                                ctx.fail("layout_independent", kind, format!("row {} through {}: label {} vs {}", i, what, r[i], out[i]));
+                            }
+                        }
                     }
                 }
-                ctx.require(out[i] == copies[best].0, "label_of_highest_probability", kind, || format!("row {}: label {}, member probabilities {:?}", i, out[i], probs.iter().map(|p| *p[i]).collect::<Vec<f32>>()));
+            }
+            for i in 0..n {
+                let mx = probs.iter().map(|p| *p[i]).fold(f32::NEG_INFINITY, f32::max);
+                let winners: Vec<usize> = (0..copies.len()).filter(|k| *probs[*k][i] == mx).map(|k| copies[k].0).collect();
+                ctx.require(winners.contains(&out[i]), "label_of_highest_probability", kind, || format!("row {}: label {}, member probabilities {:?}", i, out[i], probs.iter().map(|p| *p[i]).collect::<Vec<f32>>()));
                 let one = batch.slice(s![i..i + 1, ..]).to_owned();
                 let r: Array1<usize> = w.predict(&one);
                 if r.len() != 1 || r[0] != out[i] {
@@ -660,6 +1031,21 @@ fn wrappers_svm(em: &mut Em, rng: &mut Rng) {
                         ctx.require(out.len() == batch.nrows(), "one_output_per_row", kind, || format!("{} outputs for {} rows", out.len(), batch.nrows()));
                         if out.len() != batch.nrows() {
                             return String::new();
+                        }
+                        {
+                            // `Platt` is implemented for owned records only (its inner model must return
+                            // `ArrayBase<D, Ix1>` for the same `D`): owned strided and owned column-major
+                            let (strided, fo) = layouts(&batch);
+                            for (what, q) in [("owned strided", &strided), ("owned column-major", &fo)] {
+                                let r: Array1<Pr> = pl.predict(q);
+                                ctx.require(r.len() == out.len() && r.iter().zip(out.iter()).all(|(a, b)| (**a - **b).abs() <= 4.0 * f32::EPSILON), "layout_independent", kind, || format!("{}: {:?} vs {:?}", what, r, out));
+                            }
+                        }
+                        for salt in 0..2 {
+                            let mut y = pl.default_target(&batch);
+                            y.junk(salt);
+                            pl.predict_inplace(&batch, &mut y);
+                            ctx.require(y == out, "inplace_into_supplied_buffer", kind, || format!("pre-filled buffer gives {:?}, predict(&records) {:?}", y, out));
                         }
                         let mut idx: Vec<usize> = (0..out.len()).collect();
                         idx.sort_by(|a, b| dec[*a].partial_cmp(&dec[*b]).unwrap());
@@ -716,7 +1102,10 @@ pub fn run(em: &mut Em, rng: &mut Rng) {
     for _ in 0..rounds {
         one_round(em, rng);
     }
-    for _ in 0..(if em.thorough() { 30 } else { 4 }) {
+    for _ in 0..(if em.thorough() { 60 } else { 8 }) {
+        one_round_f32(em, rng);
+    }
+    for _ in 0..(if em.thorough() { 30 } else { 8 }) {
         wrappers_svm(em, rng);
     }
     for _ in 0..(if em.thorough() { 40 } else { 6 }) {
